@@ -477,6 +477,8 @@ This process is a two-phase process, during the midst of it the peer group's lea
 
 #![deny(clippy::all)]
 #![deny(missing_docs)]
+// The verification re-exports below make undocumented crate-private items reachable.
+#![cfg_attr(tikv_raft_rs_verif, allow(missing_docs))]
 #![recursion_limit = "128"]
 // TODO: remove this when we update the mininum rust compatible version.
 #![allow(unused_imports)]
@@ -538,6 +540,17 @@ pub use status::Status;
 pub use storage::{GetEntriesContext, RaftState, Storage};
 pub use tracker::{Inflights, Progress, ProgressState, ProgressTracker};
 pub use util::majority;
+
+/// Re-exports of crate-private items for the external verification harness.
+///
+/// Only compiled with `--cfg tikv_raft_rs_verif`; it adds names, no behaviour.
+#[cfg(tikv_raft_rs_verif)]
+pub mod verif_export {
+    pub use crate::confchange::{restore, MapChangeType};
+    pub use crate::quorum::{AckIndexer, AckedIndexer, Index, VoteResult};
+    pub use crate::read_only::{ReadIndexStatus, ReadOnly};
+    pub use crate::tracker::{Configuration, ProgressMap};
+}
 
 pub mod prelude {
     //! A "prelude" for crates using the `raft` crate.
